@@ -109,7 +109,7 @@ pub fn run(rep: &Report) -> i32 {
             if fresh(&text) {
                 rep.state();
                 judge_text(rep, &text, &format!("{op} on {name}"), false);
-                if bi == 0 && op.starts_with("fn-swap") {
+                if (bi == 0 && op.starts_with("fn-swap")) || rep.no_sample_yet() {
                     rep.sample(3, || json!({"origin": format!("{op} on {name}"), "program": text, "r1": format!("{:?}", refmodel::check_program(&m).0)}));
                 }
             }
